@@ -1,6 +1,7 @@
 import ERP.Lemmas.Ctrl
 import ERP.Lemmas.RealOps
 import ERP.Lemmas.GenConsts
+import ERP.Lemmas.GenTies
 /-! # C06 — Deferred G-codes and enter/exit scripts: exactly once per exclusion episode -/
 namespace ERP.C06
 open ERP T Spec
